@@ -1,0 +1,35 @@
+//go:build verif
+// +build verif
+
+package miner
+
+import (
+	"time"
+
+	lpb "github.com/xuperchain/xupercore/bcs/ledger/xledger/xldgpb"
+	xctx "github.com/xuperchain/xupercore/kernel/common/xcontext"
+)
+
+// Exported only under the verif build tag: lets an external harness drive the block
+// assembly and own-block confirmation steps of the miner synchronously, without the
+// consensus-driven loop and the network around them.
+
+// VerifPackBlock calls packBlock.
+func (t *Miner) VerifPackBlock(ctx xctx.XContext, height int64, now time.Time, consData []byte) (*lpb.InternalBlock, error) {
+	return t.packBlock(ctx, height, now, consData)
+}
+
+// VerifConfirmBlockForMiner calls confirmBlockForMiner.
+func (t *Miner) VerifConfirmBlockForMiner(ctx xctx.XContext, block *lpb.InternalBlock) error {
+	return t.confirmBlockForMiner(ctx, block)
+}
+
+// VerifBatchConfirmBlock calls batchConfirmBlock (ids newest first, as downloadMissBlock returns them).
+func (t *Miner) VerifBatchConfirmBlock(ctx xctx.XContext, blkIds [][]byte) error {
+	return t.batchConfirmBlock(ctx, blkIds)
+}
+
+// VerifTruncateForMiner calls truncateForMiner.
+func (t *Miner) VerifTruncateForMiner(ctx xctx.XContext, target []byte) error {
+	return t.truncateForMiner(ctx, target)
+}
